@@ -365,6 +365,9 @@ func (fr *Frame) unop(n *ssa.UnOp) Val {
 		fr.safety("nil-deref:load", n.Pos(), b.Not(b.IsNil(x.t)))
 		v := fr.cx.load(fr.st, x.t, n.Type())
 		r := Val{t: b.Name(n.Name(), v), typ: n.Type()}
+		if inv := fr.cx.typeInv(r.t, n.Type()); !isTrue(inv) {
+			fr.assume(inv) // every stored value satisfies the invariant of its type
+		}
 		if r.t.sort == SFunc {
 			r.fn = fr.cx.funcAt(x.t)
 		}
